@@ -66,7 +66,8 @@ CHECKS = {
         'inputs (selectors, unknown, empty, refused, over-long) to a request bound; all those histories plus random well-formed programs with junk byte strings (0..300 bytes) '
         'run on the real engine under recover() and a watchdog, in long-lived and persisted mode over three stores; TLC judges every iteration and request (no panic, levels, '
         'accounting, saved-and-loadable).'
-        ' Engine options (ResetOnEmptyInput, WithFirst incl. failing / blocking pre-VM checks) are part of the model programs and drawn for random programs.',
+        ' Engine options (ResetOnEmptyInput, WithFirst incl. failing / blocking pre-VM checks) are part of the model programs and drawn for random programs.'
+        ' ViseInd.tla shows the session invariants (one scope per level, accounting, path, no panic, TERMINATE gate) to be inductive over the run-loop iteration: one Iter from every invariant-satisfying session of a bounded universe.',
    design_ref='DESIGN.md section 6 (C08)',
    note='Trusted: TLC, recorder, generator of well-formed programs. Known findings (CROAK keeps path; maxlevel panic) are matched by specific predicates, everything else fails the check. Example applications: see evidence.',
    technique='TLA+ interpreter spec + TLC model checking + trace validation of recorded real runs (exhaustive small histories, random beyond)'),
